@@ -1,6 +1,7 @@
 package props
 
 import (
+	"bufio"
 	"bytes"
 	"encoding/json"
 	"errors"
@@ -8,6 +9,7 @@ import (
 	"io"
 	"math/big"
 	"sort"
+	"strconv"
 	"strings"
 
 	"github.com/freeconf/yang/meta"
@@ -44,7 +46,7 @@ var c15Cfgs = []string{"compact", "pretty", "enumids", "qualified", "pretty+enum
 
 func (p *c15) Bounds(tier string) map[string]interface{} {
 	return map[string]interface{}{"tree_size_bound": c04B(tier), "configs": c15Cfgs, "schemas": []string{"types", "base", "keys", "choice"},
-		"stream_faults": "every byte position of the output of each fault tree, with and without short writes", "entry_functions": []string{"WriteJSON", "WritePrettyJSON", "JSONWtr.JSON", "NewJSONWtr.Node+UpsertInto", "NewJSONWtr.Node+InsertInto"}}
+		"stream_faults": "every byte position of the output of each fault tree, with and without short writes", "entry_functions": []string{"WriteJSON", "WritePrettyJSON", "JSONWtr.JSON", "NewJSONWtr.Node+UpsertInto", "NewJSONWtr.Node+InsertInto", "Node+UpsertInto into the caller's bufio.Writer of 16/512/4096/65536 bytes, flushed by the caller"}}
 }
 
 func (p *c15) Cases(tier string, emit func(interface{})) {
@@ -398,6 +400,16 @@ func c15Write(sel *node.Selection, cfg string, fn string) (text string, err erro
 		return nodeutil.WriteJSON(sel)
 	case "WritePrettyJSON":
 		return nodeutil.WritePrettyJSON(sel)
+	case "Node+UpsertInto/bufio16", "Node+UpsertInto/bufio512", "Node+UpsertInto/bufio4096", "Node+UpsertInto/bufio65536":
+		// the caller hands a buffered writer of its own and flushes it afterwards
+		var buf bytes.Buffer
+		size, _ := strconv.Atoi(fn[len("Node+UpsertInto/bufio"):])
+		bw := bufio.NewWriterSize(&buf, size)
+		w.Out = bw
+		if err = sel.UpsertInto(w.Node()); err == nil {
+			err = bw.Flush()
+		}
+		return buf.String(), err
 	case "Node+UpsertInto", "Node+InsertInto":
 		var buf bytes.Buffer
 		w.Out = &buf
@@ -612,7 +624,7 @@ func (p *c15) Run(raw json.RawMessage) eng.Result {
 		t, _ := model.FromJSON(m.DataDefinitions(), []byte(c18Inits["two"]))
 		starts := []string{""}
 		startsOf(m.DataDefinitions(), t, "", &starts)
-		for _, fn := range []string{"WriteJSON", "WritePrettyJSON", "JSONWtr.JSON", "Node+UpsertInto", "Node+InsertInto"} {
+		for _, fn := range []string{"WriteJSON", "WritePrettyJSON", "JSONWtr.JSON", "Node+UpsertInto", "Node+InsertInto", "Node+UpsertInto/bufio16", "Node+UpsertInto/bufio512", "Node+UpsertInto/bufio4096", "Node+UpsertInto/bufio65536"} {
 			c15Tree(c, m, t, "tree two", &res, ss, starts, []string{"compact", "pretty+enumids+qualified"}, fn)
 		}
 		res.Outcomes = []string{"funcs"}
@@ -653,12 +665,25 @@ func c15Fault(c c15Case, m *meta.Module, t *model.Tree, only int, res *eng.Resul
 			if only >= 0 && k != only {
 				continue
 			}
-			for _, short := range []bool{false, true} {
+			variant := 0
+			for _, short := range []bool{false, true, false, false} {
 				fw := &failWriter{n: k, short: short}
 				w := jsonWtr(cfg)
 				w.Out = fw
 				var werr error
-				fr, msg, pan := eng.Recover(func() { werr = env.b.Root().UpsertInto(w.Node()) })
+				var bw *bufio.Writer
+				fr, msg, pan := eng.Recover(func() {
+					if bufSize := []int{0, 0, 16, 4096}[variant]; bufSize > 0 {
+						// the failing stream sits behind the caller's own buffered writer
+						bw = bufio.NewWriterSize(fw, bufSize)
+						w.Out = bw
+					}
+					werr = env.b.Root().UpsertInto(w.Node())
+					if werr == nil && bw != nil {
+						werr = bw.Flush()
+					}
+				})
+				variant++
 				res.Evals++
 				res.Transitions++
 				res.Nontriv++
